@@ -312,12 +312,16 @@ impl AutosarModel {
 
             match merge_action {
                 MergeAction::MergeEqual => {
-                    elements_merge.push((elem_a.clone(), elem_b.clone()));
+                    if !elements_merge.iter().any(|(_, merge_b)| merge_b == elem_b) {
+                        elements_merge.push((elem_a.clone(), elem_b.clone()));
+                    }
                     item_a = iter_a.next();
                     item_b = iter_b.next();
                 }
                 MergeAction::MergeUnequal(other_b) => {
-                    elements_merge.push((elem_a.clone(), other_b));
+                    if !elements_merge.iter().any(|(_, merge_b)| merge_b == &other_b) {
+                        elements_merge.push((elem_a.clone(), other_b));
+                    }
                     item_a = iter_a.next();
                 }
                 MergeAction::AOnly => {
@@ -325,9 +329,7 @@ impl AutosarModel {
                     item_a = iter_a.next();
                 }
                 MergeAction::BOnly(position) => {
-                    if !elements_merge.iter().any(|(_, merge_b)| merge_b == elem_b) {
-                        elements_b_only.push((elem_b.clone(), position));
-                    }
+                    Self::merge_or_import(parent_a, elem_b, position, &mut elements_merge, &mut elements_b_only);
                     item_b = iter_b.next();
                 }
             }
@@ -342,13 +344,9 @@ impl AutosarModel {
         }
         if let Some(elem_b) = item_b {
             let elem_count = parent_a.0.read().content.len();
-            if !elements_merge.iter().any(|(_, merge_b)| merge_b == &elem_b) {
-                elements_b_only.push((elem_b, elem_count));
-            }
+            Self::merge_or_import(parent_a, &elem_b, elem_count, &mut elements_merge, &mut elements_b_only);
             for elem_b in iter_b {
-                if !elements_merge.iter().any(|(_, merge_b)| merge_b == &elem_b) {
-                    elements_b_only.push((elem_b, elem_count));
-                }
+                Self::merge_or_import(parent_a, &elem_b, elem_count, &mut elements_merge, &mut elements_b_only);
             }
         }
 
@@ -367,6 +365,31 @@ impl AutosarModel {
         Self::merge_sub_elements(elements_merge, files, new_file)?;
 
         Ok(())
+    }
+
+    // elem_b was not matched by the positional walk over both sides. It is only new if the model does
+    // not contain the same identifiable element at some other position among the sub elements of parent_a.
+    fn merge_or_import(
+        parent_a: &Element,
+        elem_b: &Element,
+        position: usize,
+        elements_merge: &mut Vec<(Element, Element)>,
+        elements_b_only: &mut Vec<(Element, usize)>,
+    ) {
+        if elements_merge.iter().any(|(_, merge_b)| merge_b == elem_b) {
+            return;
+        }
+        if elem_b.is_identifiable() {
+            let name_b = elem_b.item_name();
+            if let Some(other_a) = parent_a
+                .sub_elements()
+                .find(|e| e.element_name() == elem_b.element_name() && e.item_name() == name_b)
+            {
+                elements_merge.push((other_a, elem_b.clone()));
+                return;
+            }
+        }
+        elements_b_only.push((elem_b.clone(), position));
     }
 
     // calculate how to merge two identifiable elements
